@@ -84,6 +84,18 @@ class UpdateHandler(MessageHandler):
 
         log.debug(lazymsg('update.received number={number}', number=self._number), ctx.peer_id)
 
+        # Withdraws first, announces second: RFC 4271 4.3 - a prefix that one UPDATE both
+        # withdraws and announces is treated as though it was not withdrawn
+        # Process withdraws - use dedicated method
+        for nlri in parsed.withdraws:
+            ctx.neighbor.rib.incoming.update_cache_withdraw(nlri)
+            self._audit_withdraw(ctx, nlri)
+            ctx.stats['receive-withdraws'] += 1
+            log.debug(
+                lazyformat('update.nlri number=%d nlri=' % self._number, nlri, str),
+                ctx.peer_id,
+            )
+
         # Process announces - create Route objects for cache
         # parsed.announces contains RoutedNLRI objects; extract the bare NLRI for RIB
         for routed in parsed.announces:
@@ -92,16 +104,6 @@ class UpdateHandler(MessageHandler):
             ctx.neighbor.rib.incoming.update_cache(route)
             self._audit_announce(ctx, nlri)
             ctx.stats['receive-prefixes'] += 1
-            log.debug(
-                lazyformat('update.nlri number=%d nlri=' % self._number, nlri, str),
-                ctx.peer_id,
-            )
-
-        # Process withdraws - use dedicated method
-        for nlri in parsed.withdraws:
-            ctx.neighbor.rib.incoming.update_cache_withdraw(nlri)
-            self._audit_withdraw(ctx, nlri)
-            ctx.stats['receive-withdraws'] += 1
             log.debug(
                 lazyformat('update.nlri number=%d nlri=' % self._number, nlri, str),
                 ctx.peer_id,
@@ -125,6 +127,18 @@ class UpdateHandler(MessageHandler):
 
         log.debug(lazymsg('update.received number={number}', number=self._number), ctx.peer_id)
 
+        # Withdraws first, announces second: RFC 4271 4.3 - a prefix that one UPDATE both
+        # withdraws and announces is treated as though it was not withdrawn
+        # Process withdraws - use dedicated method
+        for nlri in parsed.withdraws:
+            ctx.neighbor.rib.incoming.update_cache_withdraw(nlri)
+            self._audit_withdraw(ctx, nlri)
+            ctx.stats['receive-withdraws'] += 1
+            log.debug(
+                lazyformat('update.nlri number=%d nlri=' % self._number, nlri, str),
+                ctx.peer_id,
+            )
+
         # Process announces - create Route objects for cache
         # parsed.announces contains RoutedNLRI objects; extract the bare NLRI for RIB
         for routed in parsed.announces:
@@ -133,16 +147,6 @@ class UpdateHandler(MessageHandler):
             ctx.neighbor.rib.incoming.update_cache(route)
             self._audit_announce(ctx, nlri)
             ctx.stats['receive-prefixes'] += 1
-            log.debug(
-                lazyformat('update.nlri number=%d nlri=' % self._number, nlri, str),
-                ctx.peer_id,
-            )
-
-        # Process withdraws - use dedicated method
-        for nlri in parsed.withdraws:
-            ctx.neighbor.rib.incoming.update_cache_withdraw(nlri)
-            self._audit_withdraw(ctx, nlri)
-            ctx.stats['receive-withdraws'] += 1
             log.debug(
                 lazyformat('update.nlri number=%d nlri=' % self._number, nlri, str),
                 ctx.peer_id,
